@@ -80,18 +80,23 @@ def floorLog2 (a b : Nat) : Int :=
 
 def pow2 (e : Int) : Rat := if 0 ≤ e then ((2 ^ e.toNat : Nat) : Rat) else 1 / ((2 ^ (-e).toNat : Nat) : Rat)
 
-/-- integer nearest of a non-negative rational; ties to even or up -/
-def roundTie (even : Bool) (y : Rat) : Nat :=
-  let f := y.floor.toNat
-  let r := y - (f : Rat)
-  if r < 1/2 then f else if 1/2 < r then f + 1 else if even then (if f % 2 = 0 then f else f + 1) else f + 1
+/-- integer nearest of the non-negative rational `n/d`; ties to even or up (integer arithmetic) -/
+def roundTieNat (even : Bool) (n d : Nat) : Nat :=
+  let f := n / d
+  let r2 := 2 * (n % d)
+  if r2 < d then f else if d < r2 then f + 1 else if even then (if f % 2 = 0 then f else f + 1) else f + 1
+
+/-- nearest integer of `(a/b) / 2^s` -/
+def roundScaled (even : Bool) (a b : Nat) (s : Int) : Nat :=
+  if 0 ≤ s then roundTieNat even a (b * 2 ^ s.toNat) else roundTieNat even (a * 2 ^ (-s).toNat) b
 
 /-- Nearest value of a small float format with `mb` mantissa bits, 5 exponent bits (bias 15):
 returns the magnitude bits `exp<<mb | mant`; `x ≥ 0`. Overflow gives the infinity pattern. -/
 def roundSmallFloat (mb : Nat) (even : Bool) (x : Rat) : Nat :=
   if x ≤ 0 then 0 else
-  let e := max (floorLog2 x.num.toNat x.den) (-14)
-  let m := roundTie even (x / pow2 (e - (mb : Int)))   -- in [0, 2^(mb+1)]
+  let a := x.num.toNat; let b := x.den
+  let e := max (floorLog2 a b) (-14)
+  let m := roundScaled even a b (e - (mb : Int))       -- in [0, 2^(mb+1)]
   -- `biased<<mb + (m - 2^mb)` = `(biased-1)<<mb + m`; a carry into the exponent is automatic
   let biased1 := (e + 14).toNat                        -- biased exponent − 1 (0 for subnormals)
   let bits := biased1 * 2 ^ mb + m
@@ -130,13 +135,19 @@ def fpSmallImpl (n : Nat) (x : Rat) : Nat :=
 crate's unit tests, and what a colour buffer of precision F32 "carrying v/(2^n−1)" contains. -/
 def f32Bits (x : Rat) : Nat :=
   if x ≤ 0 then 0 else
-  let e := max (floorLog2 x.num.toNat x.den) (-126)
-  let m := roundTie true (x / pow2 (e - 23))
+  let a := x.num.toNat; let b := x.den
+  let e := max (floorLog2 a b) (-126)
+  let m := roundScaled true a b (e - 23)
   min ((e + 126).toNat * 2 ^ 23 + m) (255 * 2 ^ 23)
-def f32Val (bits : Nat) : Rat :=
+/-- value of a finite non-negative binary32 pattern as numerator / denominator -/
+def f32Num (bits : Nat) : Nat :=
   let e : Nat := bits / 2 ^ 23 % 256
   let m : Nat := bits % 2 ^ 23
-  if e = 0 then (m : Rat) * pow2 (-149) else ((m + 2 ^ 23 : Nat) : Rat) * pow2 ((e : Int) - 150)
+  if e = 0 then m else (m + 2 ^ 23) * 2 ^ (e - 150)
+def f32Den (bits : Nat) : Nat :=
+  let e : Nat := bits / 2 ^ 23 % 256
+  if e = 0 then 2 ^ 149 else 2 ^ (150 - e)
+def f32Val (bits : Nat) : Rat := (f32Num bits : Rat) / (f32Den bits : Rat)
 
 /-- `rgb9995f::from_f32` on reals: clamp to `[0, 65408]`, shared exponent from the maximum -/
 def e9Clamp (x : Rat) : Rat := if x < 0 then 0 else if 65408 < x then 65408 else x
@@ -208,8 +219,14 @@ inductive Kind
 
 structure Enc where
   kind : Kind
-  flags : Nat
+  /-- declared exactness bits -/
+  exact : Nat
+  /-- declared dithering bits -/
+  dither : Nat
   deriving Repr
+
+/-- the `Flags` value the code tests: the union of both declarations -/
+def Enc.flags (e : Enc) : Nat := e.exact ||| e.dither
 
 def Enc.accepts (e : Enc) (c : Color) : Bool :=
   match e.kind with
@@ -217,10 +234,10 @@ def Enc.accepts (e : Enc) (c : Color) : Bool :=
   | .convert p _ => c.p = p
   | .universal | .dither => true
 
-def encCopy (c : Color) : Enc := ⟨.copy c, exactFor c.p⟩
-def encConv (p : Prec) (snorm : Bool := false) : Enc := ⟨.convert p snorm, exactFor p⟩
-def encUni (extra : Nat := 0) : Enc := ⟨.universal, extra⟩
-def encDither (fl : Nat) : Enc := ⟨.dither, fl⟩
+def encCopy (c : Color) : Enc := ⟨.copy c, exactFor c.p, 0⟩
+def encConv (p : Prec) (snorm : Bool := false) : Enc := ⟨.convert p snorm, exactFor p, 0⟩
+def encUni (extra : Nat := 0) : Enc := ⟨.universal, extra, 0⟩
+def encDither (fl : Nat) : Enc := ⟨.dither, 0, fl⟩
 
 /-- `get_dithering` of a flag set: (color, alpha) -/
 def getDithering (flags : Nat) : Bool × Bool := (contains flags DITHER_COLOR, contains flags DITHER_ALPHA)
@@ -239,5 +256,57 @@ def pickEncoder (encs : List Enc) (c : Color) (dith : Bool × Bool := (false, fa
     match byDither with
     | some e => some e
     | none => cands.head?
+
+/-- the pinned encoder table (uncompressed.rs / sub_sampled.rs / bi_planar.rs), in source order -/
+def encoderTable (name : String) : List Enc :=
+  let g8 : Color := ⟨.gray, .u8⟩
+  let uni := encUni
+  match name with
+  | "R8G8B8_UNORM" => [encCopy ⟨.rgb, .u8⟩, encConv .u8, uni, encDither DITHER_COLOR]
+  | "B8G8R8_UNORM" => [encConv .u8, uni, encDither DITHER_COLOR]
+  | "R8G8B8A8_UNORM" => [encCopy ⟨.rgba, .u8⟩, encConv .u8, uni, encDither DITHER_ALL]
+  | "R8G8B8A8_SNORM" => [encConv .u8 true, uni, encDither DITHER_ALL]
+  | "B8G8R8A8_UNORM" => [encConv .u8, uni, encDither DITHER_ALL]
+  | "B8G8R8X8_UNORM" => [encConv .u8, uni, encDither DITHER_COLOR]
+  | "B5G6R5_UNORM" => [uni, encDither DITHER_COLOR]
+  | "B5G5R5A1_UNORM" | "B4G4R4A4_UNORM" | "A4B4G4R4_UNORM" => [uni, encDither DITHER_ALL]
+  | "R8_UNORM" => [encCopy g8, encConv .u8, uni, encDither DITHER_COLOR]
+  | "R8_SNORM" => [encConv .u8 true, uni, encDither DITHER_COLOR]
+  | "R8G8_UNORM" | "R8G8_SNORM" => [encUni EXACT_U8, encDither DITHER_COLOR]
+  | "A8_UNORM" => [encCopy ⟨.alpha, .u8⟩, encConv .u8, uni, encDither DITHER_ALPHA]
+  | "R16_UNORM" => [encCopy ⟨.gray, .u16⟩, encConv .u16, uni, encDither DITHER_COLOR]
+  | "R16_SNORM" => [encConv .u16 true, uni, encDither DITHER_COLOR]
+  | "R16G16_UNORM" | "R16G16_SNORM" => [encUni EXACT_U16, encDither DITHER_COLOR]
+  | "R16G16B16A16_UNORM" => [encCopy ⟨.rgba, .u16⟩, encConv .u16, uni, encDither DITHER_ALL]
+  | "R16G16B16A16_SNORM" => [encConv .u16 true, uni, encDither DITHER_ALL]
+  | "R10G10B10A2_UNORM" | "R10G10B10_XR_BIAS_A2_UNORM" => [uni, encDither DITHER_ALL]
+  | "R11G11B10_FLOAT" => [uni, encDither DITHER_COLOR]
+  | "R9G9B9E5_SHAREDEXP" => [encUni EXACT_U8, encDither DITHER_COLOR]
+  | "R16_FLOAT" | "R16G16_FLOAT" => [encUni EXACT_U8, encDither DITHER_COLOR]
+  | "R16G16B16A16_FLOAT" => [encUni EXACT_U8, encDither DITHER_ALL]
+  | "R32_FLOAT" => [encCopy ⟨.gray, .f32⟩, encConv .f32, uni]
+  | "R32G32_FLOAT" => [encUni EXACT_F32]
+  | "R32G32B32_FLOAT" => [encCopy ⟨.rgb, .f32⟩, encConv .f32, uni]
+  | "R32G32B32A32_FLOAT" => [encCopy ⟨.rgba, .f32⟩, encConv .f32, uni]
+  | "AYUV" | "Y410" => [uni, encDither DITHER_ALL]
+  | "Y416" => [encUni EXACT_U8, encDither DITHER_ALL]
+  | "R1_UNORM" => [uni, encDither DITHER_COLOR]
+  | "R8G8_B8G8_UNORM" | "G8R8_G8B8_UNORM" | "Y210" | "Y216" => [encUni EXACT_U8]
+  | "UYVY" | "YUY2" | "NV12" | "P010" | "P016" => [uni]
+  | _ => []
+
+
+def allColors : List Color :=
+  [⟨.gray, .u8⟩, ⟨.alpha, .u8⟩, ⟨.rgb, .u8⟩, ⟨.rgba, .u8⟩, ⟨.gray, .u16⟩, ⟨.alpha, .u16⟩, ⟨.rgb, .u16⟩, ⟨.rgba, .u16⟩,
+   ⟨.gray, .f32⟩, ⟨.alpha, .f32⟩, ⟨.rgb, .f32⟩, ⟨.rgba, .f32⟩]
+
+def formatNames : List String :=
+  ["R8G8B8_UNORM", "B8G8R8_UNORM", "R8G8B8A8_UNORM", "R8G8B8A8_SNORM", "B8G8R8A8_UNORM", "B8G8R8X8_UNORM",
+   "B5G6R5_UNORM", "B5G5R5A1_UNORM", "B4G4R4A4_UNORM", "A4B4G4R4_UNORM", "R8_SNORM", "R8_UNORM", "R8G8_UNORM",
+   "R8G8_SNORM", "A8_UNORM", "R16_UNORM", "R16_SNORM", "R16G16_UNORM", "R16G16_SNORM", "R16G16B16A16_UNORM",
+   "R16G16B16A16_SNORM", "R10G10B10A2_UNORM", "R11G11B10_FLOAT", "R9G9B9E5_SHAREDEXP", "R16_FLOAT", "R16G16_FLOAT",
+   "R16G16B16A16_FLOAT", "R32_FLOAT", "R32G32_FLOAT", "R32G32B32_FLOAT", "R32G32B32A32_FLOAT",
+   "R10G10B10_XR_BIAS_A2_UNORM", "AYUV", "Y410", "Y416", "R1_UNORM", "R8G8_B8G8_UNORM", "G8R8_G8B8_UNORM", "UYVY",
+   "YUY2", "Y210", "Y216", "NV12", "P010", "P016"]
 
 end Dds.Quant
